@@ -65,6 +65,7 @@ struct HHashBig { typedef HashMap<int, Tracked> H; static H make() { H m; for (i
 struct HShared { typedef Shared<Tracked> H; static H make() { return H(new Tracked(9)); } static bool read(const H& h) { return h->ok() && h->v == 9; } static const char* name() { return "Shared<Tracked>"; } };
 struct HSharedA { typedef Shared<Tracked> H; static H make() { H h; h = new Tracked(9); return h; } static bool read(const H& h) { return h->ok() && h->v == 9; } static const char* name() { return "Shared<Tracked> filled by assigning a pointer"; } };
 struct HArrBig { typedef Array<Tracked> H; static H make() { H a; for (int i = 0; i < 3000; i++) a << Tracked(i % 100); return a; } static bool read(const H& h) { return h.length() == 3000 && h[0].ok() && h[2999].ok(); } static const char* name() { return "Array<Tracked> of 3000 elements"; } };
+struct HSmartBase { typedef SmartObject H; static H make() { return SmartObject(); } static bool read(const H& h) { return h._p != 0; } static const char* name() { return "plain SmartObject (default-constructed)"; } };
 struct HSmart { typedef Thing H; static H make() { return Thing(); } static bool read(const H& h) { return h.ok(); } static const char* name() { return "SmartObject class"; } };
 
 enum Op { OP_COPY, OP_ASSIGN, OP_DROP, OP_READ, OP_REACQUIRE, OP_RESET, OP_CLONE, OP_DUP, NOPS };
@@ -81,6 +82,9 @@ template<class K> struct DupOf { static void apply(typename K::H& h) { h.dup(); 
 template<> struct DupOf<HShared> { static void apply(Shared<Tracked>&) {} };
 template<> struct DupOf<HSharedA> { static void apply(Shared<Tracked>&) {} };
 template<> struct DupOf<HSmart> { static void apply(Thing&) {} };
+template<> struct DupOf<HSmartBase> { static void apply(SmartObject&) {} };
+template<> struct CloneOf<HSmartBase> { static SmartObject get(const SmartObject& h) { return SmartObject(h); } };
+template<> struct EmptyOf<HSmartBase> { static SmartObject get() { return SmartObject((SmartObject_*)0); } };
 template<> struct CloneOf<HShared> { static Shared<Tracked> get(const Shared<Tracked>& h) { return Shared<Tracked>(new Tracked(*h)); } };
 
 // a thread's program over its own handles (it always keeps its seed handle until the end)
@@ -183,7 +187,8 @@ static void serialCase(vf::Ctx& c)
 
 static void mode_serial(vf::Ctx& c)
 {
-	switch (c.idx % 10) {
+	switch (c.idx % 11) {
+	case 10: serialCase<HSmartBase>(c); break;
 	case 8: serialCase<HSharedA>(c); break;
 	case 9: serialCase<HArrBig>(c); break;
 	case 7: serialCase<HHashBig>(c); break;
@@ -325,7 +330,8 @@ static void mode_dup_race(vf::Ctx& c)
 
 static void mode_stress(vf::Ctx& c)
 {
-	switch (c.idx % 10) {
+	switch (c.idx % 11) {
+	case 10: stressCase<HSmartBase>(c); break;
 	case 8: stressCase<HSharedA>(c); break;
 	case 9: stressCase<HArrBig>(c); break;
 	case 7: stressCase<HHashBig>(c); break;
